@@ -4,6 +4,7 @@ package c01
 import (
 	"fmt"
 	"go/types"
+	"os"
 	"sort"
 	"strings"
 
@@ -194,6 +195,9 @@ func run(c *props.Ctx) {
 	ctl := map[string]bool{}
 	for _, s := range own.Sinks {
 		fnName := p.FuncName(s.Fn)
+		if dbg := os.Getenv("POLYCHECK_OWNDEBUG"); dbg != "" && strings.Contains(fnName, dbg) {
+			fmt.Fprintf(os.Stderr, "OWNDEBUG %s %s base=%s class=%s why=%s\n", fnName, s.Kind, s.Base.Name(), s.Class, s.Why)
+		}
 		path := pkgOf(s.Fn)
 		inModeling := path == modelingPath
 		k := fnName + "→" + s.Kind
